@@ -17,6 +17,22 @@ def guard_set(p, upto=None):
     return set(p.guards(upto))
 
 
+def flag_test(ctx, rule):
+    # FlagsEnum decode test: a label is set exactly when ALL bits of its mask are present (what _encode ORs back in)
+    fi, paths = own_method_paths(ctx, "FlagsEnum", "_decode")
+    stores = [e for p in paths for e in p.events if e.kind == "STORE" and e.loops]
+    good = bool(stores)
+    for e in stores:
+        v = N.canon_lids(e["value"])
+        val = ("val", N.selfattr("flags"), 0)
+        want = N.mk_cmp("==", N.mk_bin("&", OBJ, val), val)
+        good = good and v == want and N.canon_lids(e["key"]) == ("new", "BitwisableString", 0, (("key", N.selfattr("flags"), 0),), ())
+    ctx.ob(rule, fi, good, "FlagsEnum._decode reports a label as set exactly when obj & mask == mask, for every (name, mask) of self.flags", key="flag test")
+    fi, paths = own_method_paths(ctx, "FlagsEnum", "_encode")
+    ors = [e for p in paths for e in p.events if e.kind == "GETITEM" and e["base"] == N.selfattr("flags")]
+    ctx.ob(rule, fi, len({id(e.node) for e in ors}) == 2, "FlagsEnum._encode ORs self.flags[name] for both the string and the dict spelling", key="flag or")
+
+
 def run(ctx):
     M = ctx.model
     S = summariser(ctx)
@@ -165,19 +181,7 @@ def run(ctx):
     neg = [p for p in paths if all(N.mk_not(("call", ("free", "isinstance"), (OBJ, ("free", t)), ())) in guard_set(p) for t in ("int", "str", "dict"))]
     ctx.ob("C13.R4", fi, bool(neg) and all(p.outcome[0] == "raise" and p.outcome[1].get("cls") == "MappingError" for p in neg),
            "FlagsEnum._encode refuses objects that are neither int, str nor dict", key="type refusal")
-    # FlagsEnum decode test: a label is set exactly when ALL bits of its mask are present (what _encode ORs back in)
-    fi, paths = own_method_paths(ctx, "FlagsEnum", "_decode")
-    stores = [e for p in paths for e in p.events if e.kind == "STORE" and e.loops]
-    good = bool(stores)
-    for e in stores:
-        v = N.canon_lids(e["value"])
-        val = ("val", N.selfattr("flags"), 0)
-        want = N.mk_cmp("==", N.mk_bin("&", OBJ, val), val)
-        good = good and v == want and N.canon_lids(e["key"]) == ("new", "BitwisableString", 0, (("key", N.selfattr("flags"), 0),), ())
-    ctx.ob("C13.R4", fi, good, "FlagsEnum._decode reports a label as set exactly when obj & mask == mask, for every (name, mask) of self.flags", key="flag test")
-    fi, paths = own_method_paths(ctx, "FlagsEnum", "_encode")
-    ors = [e for p in paths for e in p.events if e.kind == "GETITEM" and e["base"] == N.selfattr("flags")]
-    ctx.ob("C13.R4", fi, len({id(e.node) for e in ors}) == 2, "FlagsEnum._encode ORs self.flags[name] for both the string and the dict spelling", key="flag or")
+    flag_test(ctx, "C13.R4")
     # table construction
     fi, paths = own_method_paths(ctx, "Enum", "__init__")
     w = {}
